@@ -7,7 +7,7 @@ rm -rf $S; mkdir -p $S; rsync -a --exclude .git /repo/ $S/
 sed -i "$expr" $S/$file
 if diff -q /repo/$file $S/$file >/dev/null; then echo "MUTATION DID NOT APPLY"; rm -rf $S; exit 9; fi
 set +e
-VERIF_REPO=$S /verif/check $prop "$@"
+VERIF_REPO=$S "$(dirname "$0")"/check $prop "$@"
 rc=$?
 rm -rf $S
 echo "mutant exit=$rc"
